@@ -332,7 +332,31 @@ def gen(rng, tier):
         radius = logu(rng, 1e-3, 10.0)
         x0 = c01.start_point(rng, n, radius)
         ops.append(c01.make_op("solver2", sid, ls0, lsk, params, fnspec, x0))
-    return ops + gen_nm(rng, tier) + gen_gs(rng, tier)
+    return ops + gen_nm(rng, tier) + gen_gs(rng, tier) + gen_ls_nonsmooth(rng, tier)
+
+
+def gen_ls_nonsmooth(rng, tier):
+    """line-search solvers OUTSIDE their documented class: non-smooth objectives make the line searches FAIL after a few accepted
+    trials, and the failure paths must still leave a consistent state - value and gradient of the returned point (seeded change
+    C02-f1: CG_DESCENT returning the lower end of its bracket with the last trial's gradient). From a forked stream, appended."""
+    r = rng.fork()
+    nonsmooth = sorted(f for f, (_, smooth) in c01.FUNCTIONS.items() if not smooth)
+    ops = []
+    for k in range(170 if tier == "quick" else 1500):
+        sid = c01.LS_SOLVERS[k % len(c01.LS_SOLVERS)]
+        if r.chance(0.75):
+            fid = r.choice(nonsmooth)
+            n = r.choice([2, 3, 4, 8])
+            fnspec = f"bench {fid} {n} {r.choice([10, 50])} 0"
+        else:
+            n = r.range(2, 8)
+            W, b = random_pwl(r, n)
+            fnspec = pwl_spec(W, b) + " 0"
+        params = [("solver::epsilon", "f", c01.eps_grid(r)), ("solver::max_evals", "i", r.choice([100, 300, 1000]))]
+        lsk = r.choice(["cgdescent", "cgdescent", "morethuente", "fletcher", "lemarechal", "backtrack"])
+        x0 = c01.start_point(r, n, logu(r, 1e-3, 10.0))
+        ops.append(c01.make_op("solver2", sid, r.choice(c01.LSEARCH0 + ["-"]), lsk, params, fnspec, x0))
+    return ops
 
 
 # ---------------------------------------------------------------------------------------------------------------------
